@@ -1,5 +1,5 @@
 (** C15 — todo placeholders and run-time overrides (run-time semantics Runtime/RT.v, Runtime/Load.v). *)
-From GV Require Import Base.Str Model.Env Model.Input Model.Compile Runtime.RT Runtime.Load Proofs.RTProofs.
+From GV Require Import Base.Str Model.Env Model.Input Model.Compile Runtime.RT Runtime.Load Proofs.RTProofs Proofs.OvrProofs.
 From Coq Require Import List.
 Import ListNotations.
 
@@ -85,3 +85,60 @@ Theorem C15_todo_service_changes_nothing : forall depsf f st b id d,
   get depsf (S f) st b id = (st, b, RErr (s "service todo")).
 Proof. exact get_todo. Qed.
 Print Assumptions C15_todo_service_changes_nothing.
+
+(** ---- overrides and todo placeholders over WHOLE HISTORIES (Proofs/OvrProofs.v) ---- *)
+
+(** an override is sticky: whatever happens in between (gets, other overrides, service overrides, new contexts), every later
+    GetParam of the parameter returns the overriding value until the next override of the same parameter *)
+Theorem C15_override_sticky : forall (st : rt) (ops : list op) (i j : nat) (p : str) (v : Input.prim),
+  nth_error ops i = Some (OOverrideParam p v) -> i < j -> nth_error ops j = Some (OGetParam p) ->
+  (forall (k : nat) (w : Input.prim), i < k < j -> nth_error ops k <> Some (OOverrideParam p w)) ->
+  nth_error (snd (run_ops st ops)) j = Some (ROk (value_of_prim v)).
+Proof. exact override_sticky. Qed.
+Print Assumptions C15_override_sticky.
+
+(** a todo parameter never evaluates successfully in any history that does not override it, and a parameter referring to it neither *)
+Theorem C15_todo_never_ok : forall (st : rt) (p a l : str) (ops : list op) (j : nat) (v : value),
+  todo_param st p a l -> Forall (no_override p) ops -> nth_error ops j = Some (OGetParam p) ->
+  nth_error (snd (run_ops st ops)) j <> Some (ROk v).
+Proof. exact todo_never_ok. Qed.
+Print Assumptions C15_todo_never_ok.
+
+Theorem C15_reference_to_todo_never_ok : forall (p a l q : str) (toks : list rtok), In (KRef p) toks ->
+  forall (st : rt) (ops : list op) (j : nat) (v : value),
+    ref_todo p a l q toks st -> Forall (fun o : op => no_override p o /\ no_override q o) ops ->
+    nth_error ops j = Some (OGetParam q) -> nth_error (snd (run_ops st ops)) j <> Some (ROk v).
+Proof. exact ref_todo_never_ok. Qed.
+Print Assumptions C15_reference_to_todo_never_ok.
+
+(** before the override the documented error, after it the value *)
+Theorem C15_todo_then_override : forall (st : rt) (p a l : str) (ops : list op) (i j j' : nat) (v : Input.prim),
+  todo_param st p a l -> nth_error ops i = Some (OOverrideParam p v) ->
+  (forall (k : nat) (w : Input.prim), k <> i -> nth_error ops k <> Some (OOverrideParam p w)) ->
+  nth_error ops j = Some (OGetParam p) -> nth_error ops j' = Some (OGetParam p) -> j < i < j' ->
+  nth_error (snd (run_ops st ops)) j = Some (todo_error a l) /\ nth_error (snd (run_ops st ops)) j' = Some (ROk (value_of_prim v)).
+Proof. exact todo_then_override. Qed.
+Print Assumptions C15_todo_then_override.
+
+(** after OverrideService every later successful Get of the service returns an object built by the overriding constructor *)
+Theorem C15_service_override_sticky : forall (n o : str) (args : list Input.prim) (st : rt) (ops : list op) (i j : nat) (v : value),
+  nth_error ops i = Some (OOverrideService n o args) -> i < j -> nth_error ops j = Some (OGet n) ->
+  (forall (k : nat) (o2 : str) (a2 : list Input.prim), i < k < j -> nth_error ops k <> Some (OOverrideService n o2 a2)) ->
+  nth_error (snd (run_ops st ops)) j = Some (ROk v) -> exists sr : N, v = VObj o (map value_of_prim args) [] [] sr.
+Proof. exact service_override_sticky. Qed.
+Print Assumptions C15_service_override_sticky.
+
+(** overrides and new contexts evaluate nothing: no constructor or function runs, no instance is created *)
+Theorem C15_overrides_are_lazy : forall (ops : list op) (st : rt), forallb is_admin ops = true ->
+  rt_trace (fst (run_ops st ops)) = rt_trace st /\ rt_serial (fst (run_ops st ops)) = rt_serial st /\
+  snd (run_ops st ops) = map (fun _ : op => ROk VNil) ops.
+Proof. exact admin_history_lazy. Qed.
+Print Assumptions C15_overrides_are_lazy.
+
+(** the documented caveat: a value that was already evaluated (and cached) before the override keeps the old value; only the
+    overridden parameter's own cache entry is dropped *)
+Theorem C15_already_cached_dependant_keeps_value : forall (st : rt) (p q : str) (v : Input.prim) (d : rdep) (w : value),
+  q <> p -> lookup q (rt_params st) = Some d -> lookup q (rt_pcache st) = Some w ->
+  snd (run_ops st [OOverrideParam p v; OGetParam q]) = [ROk VNil; ROk w].
+Proof. exact stale_cache_after_override. Qed.
+Print Assumptions C15_already_cached_dependant_keeps_value.
